@@ -16,7 +16,11 @@ from vsim.world import corpus
 ID = "C06"
 LEVEL = "exploration"
 RULE = (
-    "one run = 3-5 inputs of one dialect, partly siblings (same base, different mutation) (dialect fixtures <= 1.5 kB from /repo/test/fixtures/dialects when readable, alone or two concatenated, "
+    "three kinds of run. (a) sweep-only (a third): 24 fixtures, half mutated, default vs both optimisations off in one process. "
+    "(b) order run (a fifth): 14-20 (text, dialect) items over three dialects (fixtures, mostly mutated, squeezed word boundaries and "
+    "odd identifiers preferred; a quarter of the texts under two dialects) parsed in one process in one order and in a second process "
+    "(other PYTHONHASHSEED) in another order (reversed, or grouped by dialect with the dialect order reversed): every item must get the "
+    "same tree in both. (c) full run = 3-5 inputs of one dialect, partly siblings (same base, different mutation) (dialect fixtures <= 1.5 kB from /repo/test/fixtures/dialects when readable, alone or two concatenated, "
     "a built-in corpus, small Jinja files with loops/ifs, and seeded token-level mutations of those: delete / "
     "duplicate / swap a token, truncate, stray bracket / keyword / quote, count-preserving token replacement; in three quarters "
     "of the full runs also an 'aborted parse, then its near twin' pair: a two-statement base whose copy A has an unpartnered "
@@ -83,7 +87,7 @@ def fixtures(dialect: str) -> list[str]:
     return _FIXTURE_CACHE[dialect]
 
 
-def mutate(rng: Rng, text: str, force_tag: bool = False) -> tuple[str, str]:
+def mutate(rng: Rng, text: str, force_tag: bool = False, force_kind: Optional[str] = None) -> tuple[str, str]:
     tags = list(TAG.finditer(text))
     if tags and (force_tag or rng.chance(0.5)):
         # templated input: change letters INSIDE a template tag / comment, keeping its length, so that
@@ -98,7 +102,8 @@ def mutate(rng: Rng, text: str, force_tag: bool = False) -> tuple[str, str]:
     toks = TOKEN.findall(text)
     if len(toks) < 4:
         return text, "none"
-    kind = rng.choice(["delete", "dup", "swap", "truncate", "bracket", "keyword", "quote", "replace", "replace", "replace_open", "squeeze", "squeeze", "ident_pos", "ident_pos"])
+    kind = rng.choice(["delete", "dup", "swap", "truncate", "bracket", "keyword", "quote", "replace", "replace", "replace_open", "squeeze", "squeeze", "squeeze_all", "ident_pos", "ident_pos"])
+    kind = force_kind or kind
     i = rng.randrange(len(toks))
     if kind == "ident_pos":
         # a position where only an identifier is grammatical (after FROM / JOIN / AS / TABLE / INTO / UPDATE)
@@ -111,6 +116,14 @@ def mutate(rng: Rng, text: str, force_tag: bool = False) -> tuple[str, str]:
             toks[rng.choice(pos)] = rng.choice(["1e5", "2E3", "10e2", "_1", "x1e5", "e5", "\"1e5\"", "a$b", "tbl#1", "été"])
             return "".join(toks), kind
         kind = "replace"
+    if kind == "squeeze_all":
+        # every such boundary of the text at once (`SELECT SUM(x)FROM t WHERE(a)IN(1)GROUP BY(a)`)
+        keep = [t for j, t in enumerate(toks) if not (0 < j < len(toks) - 1 and t.isspace() and "\n" not in t
+                and ((toks[j - 1][-1] in ")]'\"" and (toks[j + 1][0].isalpha() or toks[j + 1][0] == "_"))
+                     or (toks[j + 1][0] in "(['\"" and (toks[j - 1][-1].isalnum() or toks[j - 1][-1] == "_"))))]
+        if len(keep) != len(toks):
+            return "".join(keep), kind
+        kind = "squeeze"
     if kind == "squeeze":
         # drop the whitespace between a bracket / quote and a word (`SUM(x)FROM t`, `'a'AS b`): still
         # lexes into the same tokens, but keyword matchers that want preceding whitespace see none
@@ -258,6 +271,58 @@ def gen_sweep(rng: Rng, n: int) -> list[dict]:
     return out
 
 
+def gen_order(rng: Rng, n: int) -> dict:
+    """An *order* run: n (text, dialect) items over three dialects, parsed in one process in one order and in a
+    second process in another order (its reverse, half of the time). Whatever one parse leaves behind for the
+    next - in the process, the dialect objects, the grammar objects dialects share by inheritance - meets a
+    different successor in the two orders, and the first item of each order runs in a fresh process."""
+    avail = [d for d in DIALECTS if fixtures(d)]
+    if not avail:
+        return {}
+    common = [d for d in COMMON if d in avail] or avail
+    ds = [rng.choice(common)]
+    while len(ds) < min(3, len(avail)):
+        d = rng.choice(common if rng.chance(0.5) else avail)
+        if d not in ds:
+            ds.append(d)
+    items = []
+    for _ in range(n):
+        d = rng.choice(ds)
+        if rng.chance(0.15):
+            text, src = rng.choice(corpus("ansi")), "corpus"
+        else:
+            p_ = rng.choice(fixtures(d))
+            with open(p_, encoding="utf-8", errors="replace") as f:
+                text = f.read()
+            src = os.path.relpath(p_, FIX)
+            if rng.chance(0.3):
+                # two fixtures of the dialect in one item (more statement kinds per parse)
+                p2 = rng.choice(fixtures(d))
+                with open(p2, encoding="utf-8", errors="replace") as f:
+                    text = text.rstrip() + ("" if text.rstrip().endswith(";") else ";") + "\n" + f.read()
+                src += "+" + os.path.relpath(p2, FIX)
+        mut = "none"
+        if rng.chance(0.7):
+            # (squeezed word boundaries and identifier-position replacements are what keyword / terminator
+            # hints are sensitive to)
+            text, mut = mutate(rng, text, force_kind=rng.choice(["squeeze_all", "squeeze_all", "squeeze", "ident_pos", None, None]))
+        # the same text under another dialect of the run: objects shared between dialects see equal tokens at
+        # equal positions under two grammars
+        d_use = rng.choice(ds) if rng.chance(0.3) else d
+        items.append({"text": text, "dialect": d_use, "src": src, "mut": mut})
+        if rng.chance(0.25):
+            items.append({"text": text, "dialect": rng.choice([x for x in ds if x != d_use] or ds), "src": src, "mut": mut})
+    perm_a = list(range(len(items)))
+    rng.shuffle(perm_a)
+    perm_b = list(reversed(perm_a))
+    if rng.chance(0.5):
+        # grouped by dialect, the dialect order reversed: every dialect is once the first and once the last user
+        # of whatever the dialects share
+        perm_a = sorted(perm_a, key=lambda i: ds.index(items[i]["dialect"]) if items[i]["dialect"] in ds else 9)
+        perm_b = sorted(reversed(perm_a), key=lambda i: -ds.index(items[i]["dialect"]) if items[i]["dialect"] in ds else 9)
+    return {"items": items, "perm_a": perm_a, "perm_b": perm_b}
+
+
 BUGGIFY = [
     {},
     {},
@@ -312,12 +377,21 @@ def run_one(ctx: Any, seed: int, tier: str, replay: Optional[dict] = None) -> di
     if replay:
         inputs, fillers, history = replay["inputs"], replay["fillers"], replay["history"]
         sweep = replay.get("sweep", [])
+        order = replay.get("order") or {}
         hs_h, hs_f = replay["hashseeds"]
         node_seed = replay["node_seed"]
     else:
         inputs, fillers = gen_inputs(rng.fork("inputs"))
         sweep = gen_sweep(rng.fork("sweep"), 6 if tier == "quick" else 8)
-        if rng.fork("mode").chance(0.33):
+        order = {}
+        mode = rng.fork("mode").random()
+        if os.environ.get("VSIM_C06_MODE") == "order":  # (experiments only)
+            mode = 0.4
+        if 0.33 <= mode < 0.55:
+            # an order run (see gen_order): two processes, the same items in two orders
+            inputs, fillers, sweep = [], [], []
+            order = gen_order(rng.fork("order"), 14 if tier == "quick" else 20)
+        if mode < 0.33:
             # a sweep-only run: no history, no fresh references - just many (half of them mutated) fixtures
             # parsed with defaults and with both optimisations off in one process. Forks are what is
             # expensive here, so this is the cheapest way to many optimised-vs-unoptimised comparisons.
@@ -412,6 +486,46 @@ def run_one(ctx: Any, seed: int, tier: str, replay: Optional[dict] = None) -> di
         if r1node is not None:
             r1node.close()
             r1node = None
+        # order run: the same items in two orders in two processes (other hash seed too)
+        if order:
+            res: dict[str, dict[int, dict]] = {"a": {}, "b": {}}
+            t_ord = time.time()
+            for side, zy, perm in (("a", zh, order["perm_a"]), ("b", zf, order["perm_b"])):
+                nd_o = zy.node({"name": "o" + side, "root": root, "cwd": "proj", "seed": seed + (7 if side == "a" else 8), "knobs": {}})
+                try:
+                    for pos, i in enumerate(perm):
+                        if time.time() - t_ord > 300:
+                            probes["timeouts"] += 1
+                            break
+                        it = order["items"][i]
+                        r = nd_o.call("parse", text=it["text"], dialect=it["dialect"], templater="raw", handle="shared" if i % 2 else None)
+                        if "timeout" in r:
+                            probes["timeouts"] += 1
+                            continue
+                        res[side][i] = r
+                        probes["order_parses"] += 1
+                        log.append(["order", side, pos, i, it["dialect"], sha(it["text"])[:10], r.get("digest"), r.get("exception")])
+                finally:
+                    nd_o.close()
+            pos_a = {i: k for k, i in enumerate(order["perm_a"])}
+            pos_b = {i: k for k, i in enumerate(order["perm_b"])}
+            for i, it in enumerate(order["items"]):
+                if i not in res["a"] or i not in res["b"]:
+                    continue
+                evaluations += 1
+                a, b = res["a"][i], res["b"][i]
+                before_a = sha(repr([(order["items"][j]["dialect"], sha(order["items"][j]["text"])[:8]) for j in order["perm_a"][: pos_a[i]]]))[:10]
+                if pos_a[i] or pos_b[i]:
+                    nontrivial.append("%s|%s|order|%s" % (sha(it["text"])[:10], it["dialect"], before_a))
+                if a.get("digest") != b.get("digest") or a.get("exception") != b.get("exception"):
+                    what = "exception %r vs %r" % (a.get("exception"), b.get("exception")) if a.get("exception") != b.get("exception") else first_diff(a.get("tree", ""), b.get("tree", ""))
+                    violations.append({
+                        "oracle": "order-a-vs-order-b",
+                        "signature": "C06:history-or-hashseed-changes-result",
+                        "message": "item #%d (%s, %s, mutation %s) parsed as number %d of one process (after dialects %s) and as number %d of another (after dialects %s) gives two trees: %s\n text=%r" % (
+                            i, it["dialect"], it["src"], it["mut"], pos_a[i], [order["items"][j]["dialect"] for j in order["perm_a"][: pos_a[i]]][-6:],
+                            pos_b[i], [order["items"][j]["dialect"] for j in order["perm_b"][: pos_b[i]]][-6:], what, it["text"][:300]),
+                    })
         # history
         if history:
             node = zh.node({"name": "h", "root": root, "cwd": "proj", "seed": node_seed, "knobs": {}})
@@ -475,10 +589,11 @@ def run_one(ctx: Any, seed: int, tier: str, replay: Optional[dict] = None) -> di
             "inputs": [{k: (v if k != "text" else v[:200]) for k, v in inp.items() if k != "base"} for inp in inputs],
             "fillers": [f["dialect"] for f in fillers],
             "history": history,
+            "order": {"n": len(order.get("items", [])), "dialects": sorted({it["dialect"] for it in order.get("items", [])})} if order else None,
             "hashseeds": [hs_h, hs_f],
         })
         for v in violations:
-            v["replay"] = {"inputs": inputs, "fillers": fillers, "history": history, "sweep": sweep, "hashseeds": [hs_h, hs_f], "node_seed": node_seed, "tier": tier}
+            v["replay"] = {"inputs": inputs, "fillers": fillers, "history": history, "sweep": sweep, "order": order, "hashseeds": [hs_h, hs_f], "node_seed": node_seed, "tier": tier}
     finally:
         for nd in (node, r1node):
             if nd is not None:
@@ -513,6 +628,16 @@ def shrink_candidates(rp: dict):
 
     from vsim.shrink import list_candidates
 
+    od = rp.get("order") or {}
+    if od:
+        for keep in list_candidates(list(range(len(od["items"])))):
+            if len(keep) >= 1:
+                r = copy.deepcopy(rp)
+                remap = {old: new for new, old in enumerate(keep)}
+                r["order"] = {"items": [od["items"][k] for k in keep],
+                              "perm_a": [remap[i] for i in od["perm_a"] if i in remap],
+                              "perm_b": [remap[i] for i in od["perm_b"] if i in remap]}
+                yield "drop order items", r
     for h in list_candidates(rp["history"]):
         if h:
             r = copy.deepcopy(rp)
